@@ -374,6 +374,23 @@ func (i *interpreter) readerContent(fr *frame, rd iface) (symStr, bool) {
 // ---- tidwall/resp Conn / Writer model ----
 
 func init() {
+	// io.ReadAll over a harness file that exposes VerifContent: the remaining content, with the
+	// offset moved to the end through the file's own Seek
+	intrinsics["io.ReadAll"] = func(fr *frame, args []value) value {
+		rd := args[0].(iface)
+		r, ok := fr.i.readerContent(fr, rd)
+		if !ok {
+			panic(abortPath{why: "io.ReadAll over " + fmt.Sprint(rd.t), kind: "unsupported"})
+		}
+		ms := fr.i.prog.MethodSets.MethodSet(rd.t)
+		for k := 0; k < ms.Len(); k++ {
+			if ms.At(k).Obj().Name() == "Seek" {
+				f := fr.i.prog.MethodValue(ms.At(k))
+				call(fr.i, fr, token.NoPos, f, []value{rd.v, int64(0), int(2)})
+			}
+		}
+		return tuple{bytesValue(r), nilErr()}
+	}
 	intrinsics["github.com/tidwall/resp.NewConn"] = func(fr *frame, args []value) value {
 		// &Conn{Reader *Reader, Writer *Writer, base net.Conn, RemoteAddr string}
 		var w value = &opaque{kind: "respwriter", data: args[0]}
